@@ -130,7 +130,9 @@ def handle (st : Option State) (j : Json) : Option State × Json :=
           ("kind", Json.str (mkindJ mb.kind)),
           ("outcomes", Json.arr (mb.outcomes.map fun o =>
             Json.arr #[Json.str (match o.exit with | .returns => "returns" | .raises => "raises"),
-                       Json.str (touchJ o.touch)]).toArray)]))
+                       Json.str (touchJ o.touch)]).toArray),
+          ("foreign", Json.arr (mb.foreign.map fun m =>
+            Json.str (((reprStr m).replace "Nix.Stamps.Gen.Mem.m_" ""))).toArray)]))
       | none => (st, ok Json.null)
     | _, _ => (st, ok Json.null)
   | [Json.str "open", clock, Json.bool auto] =>
